@@ -90,7 +90,7 @@ func genShipped(L int, fns []string) func(emit func(alnCase) bool) {
 var bothFns = []string{"Global", "Local"}
 
 func runC08(r *core.Run) {
-	L2 := core.Pick(r, 5, 7)
+	L2 := core.Pick(r, 5, 8)
 	r.Bound("pairs", fmt.Sprintf("all ordered pairs over {A,B}^<=%d; {A,B,C}^<=3 (thorough <=5); shipped matrices over {A,R,W,X}^<=%d and Levenshtein over {a,b,0x00,0xFE}", L2, core.Pick(r, 3, 4)))
 	r.Bound("matrices", fmt.Sprintf("%d matrices for Global, %d for Local (Local: only non-positive gap and gap-open scores)", len(matrixFamily(r, "all", false)), len(matrixFamily(r, "all", true))))
 	r.Assume("all scores are small integers, so float sums are exact and scores are compared with ==")
